@@ -172,6 +172,185 @@ theorem inv_slashS {s s' : SState} {val : Nat} {p fr : Int} {skip : List Nat} {b
   · subst e; exact h
   · subst e; exact i1.ledger_frame _ _ _
 
+
+/-! ## the 100 % slash taken together with the top-ups of the locks it empties -/
+
+/-- a lock slashed (and, when emptied, topped up) keeps everything but its amount, which stays positive; its marker's
+accumulation follows by the same δ. -/
+theorem slashLockR_ok {b b' : State} {val : Nat} {f : Int} {skip : List Nat} {refill : List (Nat × Int)} {id : Nat}
+    (hc : slashLockR b val f skip refill id = .ok b') :
+    b' = b ∨ ∃ l sy δ, b.locks id = some l ∧ b.synths id = [sy] ∧ sy.key.2 = val ∧ 0 < l.amount + δ ∧
+      b' = { b with locks := upd b.locks id (some { l with amount := l.amount + δ }),
+                    accum := updK b.accum (sy.kind, sy.key) (accAdd (b.accum (sy.kind, sy.key)) sy.duration δ) } := by
+  unfold slashLockR at hc
+  split at hc
+  · injection hc with hc; exact Or.inl hc.symm
+  · split at hc
+    · injection hc with hc; exact Or.inl hc.symm
+    · rename_i l hl
+      split at hc
+      · rename_i sy hsy
+        split at hc
+        · injection hc with hc; exact Or.inl hc.symm
+        · rename_i hv
+          split at hc
+          · injection hc with hc; exact Or.inl hc.symm
+          · split at hc
+            · injection hc with hc; exact Or.inl hc.symm
+            · split at hc
+              · cases hc
+              · split at hc
+                · cases hc
+                · split at hc
+                  · cases hc
+                  · rename_i t ht
+                    split at hc
+                    · injection hc with hc; exact Or.inl hc.symm
+                    · split at hc
+                      · cases hc
+                      · split at hc
+                        · cases hc
+                        · rename_i a _
+                          split at hc
+                          · cases hc
+                          · rename_i hpos
+                            injection hc with hc
+                            exact Or.inr ⟨l, sy, a - t, hl, hsy, by simpa using hv, by omega, hc.symm⟩
+      · injection hc with hc; exact Or.inl hc.symm
+
+/-- what such a slash leaves alone: everything except lock amounts (which stay positive) and accumulation stores. -/
+structure SlashFrameR (b b' : State) : Prop where
+  synths : b'.synths = b.synths
+  conns : b'.conns = b.conns
+  now : b'.now = b.now
+  ub : b'.unbondingTime = b.unbondingTime
+  last : b'.lastLockId = b.lastLockId
+  vals : b'.validators = b.validators
+  accs : b'.accs = b.accs
+  mult : b'.mult = b.mult
+  assets : b'.assets = b.assets
+  rf : b'.riskFactor = b.riskFactor
+  bank : b'.supply = b.supply ∧ b'.offset = b.offset
+  locks : ∀ id, (b'.locks id).isSome = (b.locks id).isSome ∧
+    ∀ l', b'.locks id = some l' → ∃ l, b.locks id = some l ∧ l'.owner = l.owner ∧ l'.denom = l.denom ∧ l'.single = l.single ∧
+      l'.duration = l.duration ∧ l'.endTime = l.endTime ∧ 0 < l'.amount
+
+theorem SlashFrameR.refl {b : State} (h : Inv b) : SlashFrameR b b :=
+  ⟨rfl, rfl, rfl, rfl, rfl, rfl, rfl, rfl, rfl, rfl, ⟨rfl, rfl⟩, fun id => ⟨rfl, fun l' hl' => ⟨l', hl', rfl, rfl, rfl, rfl, rfl, by
+    have := h.lockOK id; rw [hl'] at this; exact this.1⟩⟩⟩
+
+theorem SlashFrameR.trans {a b c : State} (h1 : SlashFrameR a b) (h2 : SlashFrameR b c) : SlashFrameR a c := by
+  refine ⟨h2.synths.trans h1.synths, h2.conns.trans h1.conns, h2.now.trans h1.now, h2.ub.trans h1.ub, h2.last.trans h1.last,
+    h2.vals.trans h1.vals, h2.accs.trans h1.accs, h2.mult.trans h1.mult, h2.assets.trans h1.assets, h2.rf.trans h1.rf,
+    ⟨h2.bank.1.trans h1.bank.1, h2.bank.2.trans h1.bank.2⟩, ?_⟩
+  intro id
+  refine ⟨(h2.locks id).1.trans (h1.locks id).1, ?_⟩
+  intro l' hl'
+  obtain ⟨l1, hl1, a1, a2, a3, a4, a5, a6⟩ := (h2.locks id).2 l' hl'
+  obtain ⟨l0, hl0, b1, b2, b3, b4, b5, _⟩ := (h1.locks id).2 l1 hl1
+  exact ⟨l0, hl0, a1.trans b1, a2.trans b2, a3.trans b3, a4.trans b4, a5.trans b5, a6⟩
+
+theorem inv_slashLockR {b b' : State} {val : Nat} {f : Int} {skip : List Nat} {refill : List (Nat × Int)} {id : Nat} (h : Inv b)
+    (hc : slashLockR b val f skip refill id = .ok b') : Inv b' ∧ SlashFrameR b b' := by
+  rcases slashLockR_ok hc with e | ⟨l, sy, δ, hl, hsy, _, hpos, e⟩
+  · subst e; exact ⟨h, SlashFrameR.refl h⟩
+  · subst e
+    constructor
+    · exact inv_adjust_marked (δ := δ) h hl hsy hpos
+    · refine ⟨rfl, rfl, rfl, rfl, rfl, rfl, rfl, rfl, rfl, rfl, ⟨rfl, rfl⟩, ?_⟩
+      intro i
+      dsimp only
+      simp only [upd]
+      by_cases e : i = id
+      · subst e
+        rw [if_pos rfl, hl]
+        refine ⟨rfl, ?_⟩
+        intro l' hl'
+        injection hl' with hl'
+        subst hl'
+        exact ⟨l, rfl, rfl, rfl, rfl, rfl, rfl, hpos⟩
+      · rw [if_neg e]
+        refine ⟨rfl, ?_⟩
+        intro l' hl'
+        refine ⟨l', hl', rfl, rfl, rfl, rfl, rfl, ?_⟩
+        have := h.lockOK i; rw [hl'] at this; exact this.1
+
+theorem inv_slashLocksR {val : Nat} {f : Int} {skip : List Nat} {refill : List (Nat × Int)} :
+    ∀ (n : Nat) (b b' : State), Inv b → slashLocksR b val f skip refill n = .ok b' → Inv b' ∧ SlashFrameR b b'
+  | 0, b, b', h, hc => by
+    unfold slashLocksR at hc; injection hc with hc; subst hc; exact ⟨h, SlashFrameR.refl h⟩
+  | n + 1, b, b', h, hc => by
+    unfold slashLocksR at hc
+    split at hc
+    · cases hc
+    · rename_i b1 h1
+      obtain ⟨i1, f1⟩ := inv_slashLocksR n b b1 h h1
+      obtain ⟨i2, f2⟩ := inv_slashLockR i1 hc
+      exact ⟨i2, f1.trans f2⟩
+
+/-- the hooks of the top-ups mint or do nothing. -/
+theorem refillHooks_bank : ∀ (r : List (Nat × Int)) (s s' : SState), refillHooks s r = .ok s' → BankOnly s.b s'.b
+  | [], s, s', hc => by
+    unfold refillHooks at hc; injection hc with hc; subst hc; exact BankOnly.refl _
+  | (id, a) :: r, s, s', hc => by
+    unfold refillHooks at hc
+    split at hc
+    · cases hc
+    · split at hc
+      · cases hc
+      · split at hc
+        · cases hc
+        · rename_i s1 h1
+          exact (increaseHookS_bank h1).trans (refillHooks_bank r s1 s' hc)
+
+/-- **the 100 % slash with top-ups**: the burnt amount is positive and at most the validator's tokens, it leaves the bank
+supply, the validator loses exactly that many tokens and none of its shares; of the lockup state only lock amounts
+(staying positive) and accumulation stores change — no marker, no connection; then the hooks of the top-ups run, each
+of which mints (and offsets) or — when the validator is left without tokens — does nothing. -/
+theorem slashRefillS_ok {s s' : SState} {val : Nat} {p fr : Int} {skip : List Nat} {refill : List (Nat × Int)} {burn : Int}
+    (h : Inv s.b) (hc : slashRefillS s val p fr skip refill = .ok (s', burn)) :
+    burn ≠ 0 ∧ val ∈ s.b.validators ∧ ∃ a, burn = burnAmount a (s.k.val val).tokens ∧
+      ∃ b1, Inv b1 ∧ SlashFrameR s.b b1 ∧
+        refillHooks { b := { b1 with supply := b1.supply - burn },
+                      k := setVal s.k val { (s.k.val val) with tokens := (s.k.val val).tokens - burn } } refill = .ok s' := by
+  unfold slashRefillS at hc
+  split at hc
+  · cases hc
+  · split at hc
+    · cases hc
+    · split at hc
+      · cases hc
+      · rename_i slashAmount _
+        split at hc
+        · cases hc
+        · rename_i hv
+          have hv' : val ∈ s.b.validators := Decidable.of_not_not hv
+          split at hc
+          · cases hc
+          · rename_i hb0
+            split at hc
+            · cases hc
+            · split at hc
+              · cases hc
+              · rename_i b1 hb1
+                split at hc
+                · cases hc
+                · rename_i s2 hh
+                  injection hc with hc
+                  injection hc with e1 e2
+                  have hI : Inv b1 ∧ SlashFrameR s.b b1 := by
+                    split at hb1
+                    · injection hb1 with hb1; subst hb1; exact ⟨h, SlashFrameR.refl h⟩
+                    · exact inv_slashLocksR _ _ _ h hb1
+                  subst e1
+                  refine ⟨by rw [← e2]; exact hb0, hv', slashAmount, e2.symm, b1, hI.1, hI.2, ?_⟩
+                  rw [← e2]; exact hh
+
+theorem inv_slashRefillS {s s' : SState} {val : Nat} {p fr : Int} {skip : List Nat} {refill : List (Nat × Int)} {burn : Int}
+    (h : Inv s.b) (hc : slashRefillS s val p fr skip refill = .ok (s', burn)) : Inv s'.b := by
+  obtain ⟨_, _, _, _, b1, i1, _, hh⟩ := slashRefillS_ok h hc
+  exact (refillHooks_bank _ _ _ hh).inv (i1.ledger_frame _ _ _)
+
 /-! ## every call, every history -/
 
 /-- the calls that do not reach the staking module are those of Model/Superfluid.lean on `b`. -/
@@ -252,6 +431,13 @@ theorem inv_applyOpS {s s' : SState} {op : OpS} (h : Inv s.b) (hc : applyOpS s o
     obtain ⟨r, hr, hqr⟩ := map_ok (show (epochOS s ups order).map _ = .ok q from hq)
     subst hqr
     exact inv_epochOS h hr
+  | slashRefill v p f x t =>
+    unfold applyOpS at hc
+    obtain ⟨q, hq, hqs⟩ := map_ok hc
+    subst hqs
+    obtain ⟨r, hr, hqr⟩ := map_ok (show (slashRefillS s v p f x t).map _ = .ok q from hq)
+    subst hqr
+    exact inv_slashRefillS h (show slashRefillS s v p f x t = .ok (r.1, r.2) from hr)
   | base op =>
     by_cases hf : ledgerFree op = true
     · obtain ⟨h1, _⟩ := applyOpS_ledgerFree hf hc
